@@ -26,8 +26,10 @@ class Obligation:
 
 class Contract:
     def __init__(self, qual, params=None, requires=(), ensures=(), raises=None, modifies=None, loops=None, result=None,
-                 props=(), pure=False, ghost=None, trusted=False, no_raise=True, old_names=None, note="", lemmas=(), allocates=False, cases=(), asserts=(), assume_pre=(), lemma_at=(), local_types=None, names_result=()):
+                 props=(), pure=False, ghost=None, trusted=False, no_raise=True, old_names=None, note="", lemmas=(), allocates=False, cases=(), asserts=(), assume_pre=(), lemma_at=(), local_types=None, names_result=(), dict_inv=None, assume_after=(), thorough_only=False):
         self.qual = qual
+        self.thorough_only = thorough_only       # verified in the thorough tier only (too slow for the per-change check); the quick evidence says so
+        self.assume_after = list(assume_after)   # [(name, anchor, expr)]: ASSUMED (listed as A) right after the anchored statement: summary of trusted callees that their own contracts cannot state
         self.params = params or {}          # name -> type descriptor
         self.requires = list(requires)      # [expr str]
         self.ensures = [(e if isinstance(e, tuple) else (f"post{k}", e)) for k, e in enumerate(ensures)]
@@ -45,6 +47,7 @@ class Contract:
         self.ghost = ghost or {}
         self.note = note
         self.names_result = list(names_result)   # clauses that merely NAME the returned value by a fresh function of the arguments (assumed at call sites only; sound for a single call per state)
+        self.dict_inv = dict(dict_inv or {})         # abstract dict variable -> "lambda v: <refinement of every stored leaf value>"
         self.local_types = dict(local_types or {})   # element types of local lists that start empty (name -> "list:<elem>")
         self.lemma_at = list(lemma_at)      # [(lemma name, anchor, instance expr)]: instance of a separately proved lemma, assumed just before the anchored statement
         self.assume_pre = list(assume_pre)  # callee quals whose preconditions are ASSUMED at this function's call sites (listed as assumptions)
@@ -188,6 +191,30 @@ def _as_int(t):
             for p_ in parts[1:]:
                 r = r * p_ if z3.is_app_of(t, z3.Z3_OP_MUL) else r + p_
             return r
+    return None
+
+
+def _as_frac(t, depth=0):
+    """Real-sorted term that is a quotient of Int terms -> (numerator, denominator) Int terms (denominator not simplified away)"""
+    t = z3.simplify(t)
+    w = _as_int(t)
+    if w is not None:
+        return w, z3.IntVal(1)
+    if z3.is_rational_value(t):
+        return z3.IntVal(t.numerator_as_long()), z3.IntVal(t.denominator_as_long())
+    if depth > 6:
+        return None
+    if z3.is_app_of(t, z3.Z3_OP_MUL):
+        parts = [_as_frac(c, depth + 1) for c in t.children()]
+        if all(p is not None for p in parts):
+            n, d = parts[0]
+            for (a, b) in parts[1:]:
+                n, d = n * a, d * b
+            return z3.simplify(n), z3.simplify(d)
+    if z3.is_app_of(t, z3.Z3_OP_DIV) or z3.is_div(t):
+        a, b = (_as_frac(c, depth + 1) for c in t.children())
+        if a is not None and b is not None:
+            return z3.simplify(a[0] * b[1]), z3.simplify(a[1] * b[0])
     return None
 
 
@@ -873,9 +900,13 @@ class Exec:
             xs = z3.simplify(idx)
             if z3.is_int_value(xs) and xs.as_long() < 0:
                 idx = n + xs
-            elif not z3.is_int_value(xs):
+            elif not z3.is_int_value(xs) and not getattr(self, "in_spec", 0):
+                # (contract expressions index from the front only; a symbolic index there is a bound variable >= 0)
                 idx = z3.If(idx < 0, n + idx, idx)
             return self.lget(st, c, idx)
+        if isinstance(c, AbsDictV):
+            self.notes.append("A: a lookup d[k] in an abstract dict is assumed to hit (KeyError is not modelled for abstract dicts)")
+            return self.absdict_read(st, c)
         raise VCError(f"subscript of {c!r}")
 
     def ev_ListComp(self, e, st):
@@ -1018,6 +1049,10 @@ class Exec:
                     return ConstList(v.items)
                 if isinstance(v, TupleV):
                     return ConstList(v.items)
+                if isinstance(v, ListV):
+                    from .calls import list_copy
+                    self.need(v, st, "list")
+                    return list_copy(self, st, v)
                 raise VCError("list() form")
             if n == "sorted":
                 return self.sorted_const(e, st)
@@ -1054,9 +1089,15 @@ class Exec:
             raise VCError("hasattr form")
         if isinstance(f, ast.Attribute):
             # expression-level method calls without forking
+            if f.attr in ("get", "setdefault", "keys", "values", "items", "pop") and isinstance(self.peek(f.value, st), AbsDictV):
+                return self.absdict_method(st, self.ev(f.value, st), f.attr, e)
             if f.attr == "is_integer":
                 v = self.ev(f.value, st)
                 self.need(v, st)
+                fr = _as_frac(v.as_real()) if v.real else None
+                if fr is not None and not z3.is_int_value(fr[1]):
+                    # a quotient of integers is whole iff the denominator divides the numerator (FLOAT-EXACT; a zero divisor was excluded when the quotient was formed)
+                    return BoolV(fr[0] % fr[1] == 0)
                 return BoolV(z3.ToReal(z3.ToInt(v.as_real())) == v.as_real())
             if f.attr == "index":
                 c = self.ev(f.value, st)
@@ -1097,6 +1138,145 @@ class Exec:
                 return NONE
         raise VCError(f"call {ast.unparse(e)[:60]} outside subset at line {e.lineno}")
 
+    def _specfn_weight(self, st, L):
+        """the weight function of wsum(L, .) in the current state"""
+        wait = self.ctx.enums["MessageType"].index("WAIT")
+        el, tm, ty = st.heap["@el"][L.v], st.heap["time"], st.heap["message_type"]
+        return lambda kk: z3.If(ty[el[kk]] == wait, tm[el[kk]], 0)
+
+    # ------------------------------------------------------------------ abstract dicts
+    def absdict_checks(self, root):
+        """syntactic side conditions of the abstraction"""
+        src = self.contract.dict_inv.get(root)
+        if src:
+            used = {n.attr for n in ast.walk(ast.parse(src, mode="eval")) if isinstance(n, ast.Attribute)}
+            written = {n.attr for n in ast.walk(self.fn_node) if isinstance(n, ast.Attribute) and isinstance(n.ctx, ast.Store)} if getattr(self, "fn_node", None) is not None else set()
+            if used & written:
+                raise VCError(f"refinement of abstract dict {root} mentions fields the function writes: {sorted(used & written)}")
+        self.notes.append(f"A: dict `{root}` of {self.qual} is abstracted (content untracked): reads return an arbitrary value of the declared type satisfying the stated refinement, "
+                          "stores are checked against it; lists stored in it are created by this call and are not bound to other containers (checked at every store); a dict is not resized while it is iterated")
+
+    def absdict_pred(self, st, root, v):
+        src = self.contract.dict_inv.get(root) if self.contract is not None else None
+        if not src:
+            return TRUE
+        lam = ast.parse(src, mode="eval").body
+        t = st.cp()
+        t.env = dict(t.env)
+        t.env[lam.args.args[0].arg] = v
+        return self.truth(self.spec_ev(lam.body, t), t)
+
+    def absdict_leaf_facts(self, st, d, v):
+        """what is known about a value read from the abstract dict"""
+        facts = []
+        if isinstance(v, Ref):
+            facts.append(st.heap["@alloc"][v.v])
+        if isinstance(v, ListV):
+            birth = st.meta.get("dict_birth", {}).get(d.root, st.meta.get("old_heap", st.heap)["@alloc"])
+            facts += [st.heap["@alloc"][v.v], z3.Not(birth[v.v]), st.heap["@len"][v.v] >= 0]
+            for n_, o in st.env.items():
+                if isinstance(o, ListV) and n_ in getattr(self, "private_lists", ()) and o.none is None:
+                    facts.append(v.v != o.v)
+            base, arg, _ = parse_type(v.elem)
+            if base == "ref":
+                k = fresh("k")
+                el = st.heap["@el"][v.v]
+                facts.append(safe_forall([k], z3.Implies(z3.And(0 <= k, k < st.heap["@len"][v.v]), st.heap["@alloc"][el[k]]), patterns=[el[k]]))
+        return facts
+
+    def absdict_read(self, st, d):
+        base, arg, opt = parse_type(d.vtype)
+        if base == "absdict":
+            return AbsDictV(arg, d.root)
+        v = wrap(fresh("dv"), d.vtype)
+        v.none = None
+        st.pc += self.absdict_leaf_facts(st, d, v)
+        st.pc.append(self.absdict_pred(st, d.root, v))
+        v.from_dict = d.root
+        return v
+
+    def absdict_store(self, st, d, v, target_node=None):
+        base, arg, opt = parse_type(d.vtype)
+        if base == "absdict":
+            if isinstance(v, AbsDictV) and v.vtype == arg:
+                return
+            if isinstance(v, DictObj) and not v.entries:
+                return            # an empty dict: nothing to check
+            raise VCError(f"store of {v!r} into abstract dict of dicts")
+        if isinstance(v, ConstList):
+            v = self.materialise(st, v, arg if base == "list" else None)
+        ok = (base == "ref" and isinstance(v, Ref)) or (base == "list" and isinstance(v, ListV)) or (base == "int" and isinstance(v, Num) and not v.real)
+        if not ok:
+            raise VCError(f"store of {v!r} into abstract dict of {d.vtype}")
+        if isinstance(v, ListV) and v.elem == "?":
+            v.elem = arg
+        if v.none is not None:
+            self.oblige("dict-store.not-none", st, z3.Not(v.none), "safe", text=f"value stored in {d.root} is not None")
+        if isinstance(v, ListV):
+            birth = st.meta.get("dict_birth", {}).get(d.root, st.meta.get("old_heap", st.heap)["@alloc"])
+            self.oblige("dict-store.owned", st, z3.Not(birth[v.v]), "safe", text=f"list stored in {d.root} was created after the dict")
+            sep = [v.v != o.v for n_, o in st.env.items() if isinstance(o, ListV) and n_ in getattr(self, "private_lists", ()) and o.none is None]
+            if sep:
+                self.oblige("dict-store.separate", st, z3.And(sep), "safe", text=f"list stored in {d.root} is not one of the local result lists")
+        self.oblige("dict-store.refinement", st, self.absdict_pred(st, d.root, v), "safe", text=f"value stored in {d.root} satisfies the dict refinement")
+
+    def absdict_method(self, st, d, name, e):
+        args = [self.ev(a, st) for a in e.args]
+        if name == "setdefault":
+            if len(args) == 2:
+                self.absdict_store(st, d, args[1])
+            return self.absdict_read(st, d)
+        if name in ("get", "pop"):
+            got = self.absdict_read(st, d)
+            if len(args) < 2:
+                if name == "pop":
+                    self.notes.append("A: d.pop(k) without default on an abstract dict is assumed to hit")
+                    return got
+                dflt = NONE
+            else:
+                dflt = args[1]
+            if isinstance(got, AbsDictV):
+                return got
+            if isinstance(dflt, ConstList) and not dflt.items:
+                dflt = self.new_list(st, parse_type(d.vtype)[1] or "?", 0)
+            b = fresh("hit", B)
+            if isinstance(dflt, NoneV):
+                got.none = z3.Not(b)
+                return got
+            if isinstance(got, ListV) and isinstance(dflt, ListV):
+                r = ListV(z3.If(b, got.v, dflt.v), got.elem)
+                r.from_dict = d.root
+                return r
+            r = self.ite(BoolV(b), got, dflt)
+            return r
+        if name in ("keys", "values", "items"):
+            if name == "keys":
+                L = self.new_list(st, "int?", 0)
+                n = fresh("nk")
+                st.pc.append(n >= 0)
+                self.lset_arr(st, L, fresh("keys", z3.ArraySort(I, I)), n)
+                L.frozen_heap = dict(st.heap)
+                return L
+            base, arg, opt = parse_type(d.vtype)
+            if base == "absdict":
+                raise VCError("iteration over the values of a dict of dicts")
+            L = self.new_list(st, d.vtype, 0)
+            n = fresh("nv")
+            st.pc.append(n >= 0)
+            arr = fresh("vals", z3.ArraySort(I, I))
+            self.lset_arr(st, L, arr, n)
+            k = fresh("k")
+            proto = wrap(arr[k], d.vtype)
+            proto.none = None
+            facts = self.absdict_leaf_facts(st, d, proto) + [self.absdict_pred(st, d.root, proto)]
+            st.pc.append(safe_forall([k], z3.Implies(z3.And(0 <= k, k < n), z3.And(facts)), patterns=[arr[k]]))
+            L.frozen_heap = dict(st.heap)
+            if name == "items":
+                L.pair_key = True
+            L.from_dict_iter = d.root
+            return L
+        raise VCError(f"dict method {name}")
+
     def int_quotient(self, r):
         r = z3.simplify(r)
         if z3.is_rational_value(r):
@@ -1116,7 +1296,10 @@ class Exec:
             if len(ch) == 2 and z3.is_rational_value(ch[0]) and ch[0].numerator_as_long() == 1:
                 xi = _as_int(ch[1])
                 if xi is not None:
-                    return TDIV(xi, z3.IntVal(ch[0].denominator_as_long()))
+                    return _tdiv(xi, z3.IntVal(ch[0].denominator_as_long()))
+        fr = _as_frac(r)
+        if fr is not None and not z3.is_int_value(fr[1]):
+            return _tdiv(fr[0], fr[1])
         return None
 
     MIDO_KINDS = ["note_on", "note_off", "time_signature", "key_signature", "control_change", "program_change"]
@@ -1308,6 +1491,19 @@ class Exec:
                     st.pc.append(self.truth(self.spec_ev(expr, st), st))
                     self.notes.append(f"L: instance of lemma {lname} assumed before `{anchor[:50]}`")
                     self.__dict__.setdefault("anchors_hit", set()).add("lemma:" + lname)
+        if self.contract is not None and self.contract.assume_after and self.depth == 0 and not isinstance(x, (ast.If, ast.For, ast.While)):
+            src = " ".join(ast.unparse(x).split())
+            hits = [(nm, expr) for nm, anchor, expr in self.contract.assume_after if src.startswith(" ".join(anchor.split()))]
+            if hits:
+                outs = []
+                for k, t, v in m(x, st):
+                    if k == "n":
+                        t = t.cp()
+                        for nm, expr in hits:
+                            t.pc.append(self.truth(self.spec_ev(expr, t), t))
+                            self.notes.append(f"A: assumed after `{src[:60]}`: {nm}: {expr}")
+                    outs.append((k, t, v))
+                return outs
         return m(x, st)
 
     def desugar_comprehensions(self, x):
@@ -1472,6 +1668,11 @@ class Exec:
         if isinstance(tgt, ast.Name):
             if isinstance(v, ConstList) and not self.keep_const_list(v):
                 v = self.materialise(st, v)
+            if isinstance(v, DictObj) and not v.entries and self.contract is not None and self.contract.local_types.get(tgt.id, "").startswith("absdict:") and self.depth == 0:
+                v = AbsDictV(self.contract.local_types[tgt.id].split(":", 1)[1], tgt.id)
+                st.meta = dict(st.meta)
+                st.meta["dict_birth"] = dict(st.meta.get("dict_birth", {}), **{tgt.id: st.heap["@alloc"]})
+                self.absdict_checks(tgt.id)
             if isinstance(v, ListV) and v.elem == "?" and self.contract is not None and tgt.id in self.contract.local_types:
                 v.elem = self.contract.local_types[tgt.id].split(":", 1)[1]
             if isinstance(v, ListV) and tgt.id in getattr(self, "frozen_locals", ()) and self.depth == 0:
@@ -1536,6 +1737,10 @@ class Exec:
                 if not (isinstance(key, StrV) and key.const() is not None and isinstance(tgt.value, ast.Name)):
                     raise VCError("dict store form")
                 s.env[tgt.value.id] = c.with_(key.const(), v)
+                return [("n", s, None)]
+            if isinstance(c, AbsDictV):
+                self.ev(tgt.slice, s)
+                self.absdict_store(s, c, v, tgt.value)
                 return [("n", s, None)]
             if not isinstance(c, ListV):
                 raise VCError(f"subscript store into {c!r}")
@@ -1716,6 +1921,28 @@ class Exec:
                 for y in ast.iter_child_nodes(n):
                     if isinstance(y, ast.Name) and y.id in cands:
                         bad.add(y.id)
+        return cands - bad
+
+    @staticmethod
+    def dict_separate_locals(fn):
+        """local names bound exactly once, to a list literal / comprehension, that never occur as the value of a subscript store or as an
+        argument of setdefault: the list they denote is never put into a dict by this function"""
+        count, cands = {}, set()
+        for n in ast.walk(fn):
+            if isinstance(n, ast.Assign) and len(n.targets) == 1 and isinstance(n.targets[0], ast.Name):
+                count[n.targets[0].id] = count.get(n.targets[0].id, 0) + 1
+                if isinstance(n.value, (ast.List, ast.ListComp)):
+                    cands.add(n.targets[0].id)
+            elif isinstance(n, (ast.AugAssign, ast.AnnAssign, ast.For)) and isinstance(getattr(n, "target", None), ast.Name):
+                count[n.target.id] = count.get(n.target.id, 0) + 2
+        cands = {c for c in cands if count.get(c) == 1}
+        bad = set()
+        for n in ast.walk(fn):
+            if isinstance(n, ast.Assign) and any(isinstance(t, ast.Subscript) for t in n.targets):
+                bad |= {y.id for y in ast.walk(n.value) if isinstance(y, ast.Name)}
+            if isinstance(n, ast.Call) and isinstance(n.func, ast.Attribute) and n.func.attr == "setdefault":
+                for a in n.args:
+                    bad |= {y.id for y in ast.walk(a) if isinstance(y, ast.Name)}
         return cands - bad
 
     @staticmethod
@@ -2078,6 +2305,10 @@ class Exec:
             self.bind(x.target, TupleV([Num(i), el]) if enum else el, st)
             return
         el = self.lget(st, L, i, heap=getattr(L, "frozen_heap", None))
+        if getattr(L, "pair_key", False):
+            el = TupleV([Opaque("dict-key"), el])
+        if getattr(L, "from_dict_iter", None):
+            (el.items[1] if isinstance(el, TupleV) else el).from_dict = L.from_dict_iter
         if enum:
             self.bind(x.target, TupleV([Num(i), el]), st)
         else:
